@@ -14,14 +14,14 @@ import (
 
 // Shared is the state shared by the workers exploring one harness entry.
 type Shared struct {
-	mu      sync.Mutex
-	cond    *sync.Cond
-	queue   []*State
-	idle    int
-	n       int
-	stop    bool
-	maxViol int
-	nviol   int
+	mu       sync.Mutex
+	cond     *sync.Cond
+	queue    []*State
+	idle     int
+	n        int
+	stop     bool
+	maxViol  int
+	nviol    int
 	deadline time.Time
 	timedOut bool
 }
@@ -99,6 +99,20 @@ func (e *Engine) workerLoop() {
 }
 
 func (e *Engine) finishPath(st *State) {
+	if len(st.pendA) > 0 && st.outcome != "assume-false" && !strings.HasPrefix(st.outcome, "UNSUPPORTED") {
+		func() {
+			defer func() {
+				if r := recover(); r != nil {
+					if u, ok := r.(unsupportedErr); ok {
+						st.outcome = "UNSUPPORTED: " + u.msg
+						return
+					}
+					panic(r)
+				}
+			}()
+			e.flushAsserts(st)
+		}()
+	}
 	e.paths++
 	o := st.outcome
 	e.outcomes[o]++
@@ -177,27 +191,29 @@ func (e *Engine) recordViolation(st *State, kind, id string) {
 
 // HarnessResult is the merged outcome of exploring one harness entry.
 type HarnessResult struct {
-	Name      string         `json:"name"`
-	Paths     int            `json:"paths"`
-	Nontriv   int            `json:"nontrivial_paths"`
-	Forks     int            `json:"forks"`
-	Queries   int            `json:"queries"`
-	AssertQ   int            `json:"assertion_queries"`
-	AbsHits   int            `json:"branches_decided_by_simplifier"`
-	Sat       int            `json:"sat"`
-	Unsat     int            `json:"unsat"`
-	Unknown   int            `json:"unknown"`
-	SolverS   float64        `json:"solver_s"`
-	MaxQueryS float64        `json:"max_query_s"`
-	WallS     float64        `json:"wall_s"`
-	Outcomes  map[string]int `json:"outcomes"`
-	Reach     map[string]int `json:"reach"`
-	Asserts   map[string]int `json:"asserts"`
-	Funcs     []string       `json:"-"`
-	Viol      []Violation    `json:"-"`
-	Samples   []string       `json:"-"`
-	TimedOut  bool           `json:"timed_out"`
-	SolverErr string         `json:"solver_err,omitempty"`
+	Name       string         `json:"name"`
+	Paths      int            `json:"paths"`
+	Nontriv    int            `json:"nontrivial_paths"`
+	Forks      int            `json:"forks"`
+	Queries    int            `json:"queries"`
+	AssertQ    int            `json:"assertion_queries"`
+	AbsHits    int            `json:"branches_decided_by_simplifier"`
+	Fallbacks  int            `json:"queries_retried_on_fallback_solver"`
+	AbsAsserts int            `json:"assertions_discharged_by_preprocessor"`
+	Sat        int            `json:"sat"`
+	Unsat      int            `json:"unsat"`
+	Unknown    int            `json:"unknown"`
+	SolverS    float64        `json:"solver_s"`
+	MaxQueryS  float64        `json:"max_query_s"`
+	WallS      float64        `json:"wall_s"`
+	Outcomes   map[string]int `json:"outcomes"`
+	Reach      map[string]int `json:"reach"`
+	Asserts    map[string]int `json:"asserts"`
+	Funcs      []string       `json:"-"`
+	Viol       []Violation    `json:"-"`
+	Samples    []string       `json:"-"`
+	TimedOut   bool           `json:"timed_out"`
+	SolverErr  string         `json:"solver_err,omitempty"`
 }
 
 type RunOpts struct {
@@ -230,7 +246,8 @@ func exploreHarness(prog *ssa.Program, fn *ssa.Function, inits []*ssa.Function, 
 		e := &Engine{prog: prog, solver: NewSolver(opts.SolverBin, opts.TimeoutMs), sh: sh, outcomes: map[string]int{},
 			reach: map[string]int{}, asserts: map[string]int{}, maxSteps: opts.MaxSteps, funcsSeen: map[*ssa.Function]bool{},
 			verbose: opts.Verbose, harness: fn.Name(), tier: opts.Tier, pin: opts.Pin, maxSwitch: opts.MaxSwitch,
-			noAbs: os.Getenv("VERIF_NOABS") != "", audit: os.Getenv("VERIF_AUDIT") != ""}
+			noAbs: os.Getenv("VERIF_NOABS") != "", audit: os.Getenv("VERIF_AUDIT") != "",
+			noSlice: os.Getenv("VERIF_SLICE") == "", useModel: os.Getenv("VERIF_NOMODEL") == "", assertsToSolver: opts.Tier > 0 || os.Getenv("VERIF_ASSERTS_TO_SOLVER") != "", varMemo: map[*Term]varset{}, varIdx: map[*Term]int{}}
 		if opts.SmtLog != "" && i == 0 {
 			lf, _ := os.Create(opts.SmtLog)
 			e.solver.log = lf
@@ -282,6 +299,8 @@ func exploreHarness(prog *ssa.Program, fn *ssa.Function, inits []*ssa.Function, 
 		res.Queries += e.solver.Queries
 		res.AssertQ += e.assertQ
 		res.AbsHits += e.absHits
+		res.Fallbacks += e.solver.Fallbacks
+		res.AbsAsserts += e.absAsserts
 		res.Sat += e.solver.Sat
 		res.Unsat += e.solver.Unsat
 		res.Unknown += e.solver.Unknown
